@@ -84,8 +84,8 @@ func c18specs(u c18unit, master core.DutyDefinition) []alias.Spec {
 			if s == nil {
 				return
 			}
-			done := make(chan struct{}, 4)
-			for _, n := range []string{"sub1", "sub2"} {
+			done := make(chan struct{}, 6)
+			for _, n := range []string{"sub1", "sub2", "sub3"} {
 				n := n
 				s.SubscribeDuties(func(_ context.Context, d core.Duty, set core.DutyDefinitionSet) error {
 					if d == duty {
@@ -97,7 +97,7 @@ func c18specs(u c18unit, master core.DutyDefinition) []alias.Spec {
 			}
 			w.Held("scheduler.duties", s.duties[duty])
 			s.scheduleSlot(context.Background(), slot)
-			for i := 0; i < 2; i++ {
+			for i := 0; i < 3; i++ {
 				select {
 				case <-done:
 				case <-time.After(10 * time.Second):
